@@ -1235,7 +1235,8 @@ class Downsample(Linop):
 
         self.shift = shift
         oshape = [
-            ((i - s + f - 1) // f) for i, f, s in zip(ishape, factors, shift)
+            ((int(i) - int(s) + int(f) - 1) // int(f))
+            for i, f, s in zip(ishape, factors, shift)
         ]
 
         super().__init__(oshape, ishape)
@@ -1267,7 +1268,8 @@ class Upsample(Linop):
 
         self.shift = shift
         ishape = [
-            ((i - s + f - 1) // f) for i, f, s in zip(oshape, factors, shift)
+            ((int(i) - int(s) + int(f) - 1) // int(f))
+            for i, f, s in zip(oshape, factors, shift)
         ]
 
         super().__init__(oshape, ishape)
